@@ -154,6 +154,13 @@ def run(ctx):
         touched = any(b.path in reach_bodies for o, b, bi, st in field_read_sites(prog, WSTATE_ADT, f))
         ctx.ob('R08.4', f'cancel_task|touches {f}', touched,
                f'the CancelTasks handler must look into WorkerState.{f} (a container that can hold the canceled task)', ct.loc())
+    pwm = prog.body(T + 'worker::rpc::process_worker_message')
+    TWM = T + 'messages::worker::ToWorkerMessage'
+    cc = pwm.call_blocks(ct.path)
+    ctx.require(cc, 'R08.4: cancel_task call in process_worker_message')
+    vs = variants_at(pwm, TWM, cc[0])
+    ctx.ob('R08.4', 'CancelTasks -> cancel_task for every id', vs is not None and set(vs) == {'CancelTasks'} and bool(loop_headers_containing(pwm, cc[0])),
+           f'the CancelTasks message cancels every listed id (loop) (observed arm {sorted(vs) if vs else vs})', pwm.loc(cc[0]))
     # the rpc handler dispatches CancelTasks to cancel_task
     callers = set(o for o, b, bi in call_sites(prog, ct.path) if not is_test_util(o))
     ctx.ob('R08.4', 'cancel_task|called from worker message loop', any('worker::rpc' in c for c in callers), f'cancel_task is driven by the worker message handler (callers {sorted(callers)})', None)
